@@ -25,6 +25,17 @@ Proof.
 Qed.
 
 (* HKLF with all thirteen numbers *)
+(* set(text) on a used object gives what reading text gives, whatever the object held before *)
+Theorem set_is_parse ds old p : set_again ds old p = unpack ds p.
+Proof.
+  unfold set_again. revert p. induction ds as [|d ds IH]; intros p; [reflexivity|].
+  destruct p as [|x r]; cbn [assign_given unpack]; rewrite IH; reflexivity.
+Qed.
+
+(* ... which the constructors without defaults did not: ABIN 1.25 1.75 set to ABIN 0.75 kept n2 = 1.75 *)
+Theorem stale_attribute_refuted : exists old p, assign_given old p <> unpack [None; None] p.
+Proof. exists [Some (5 # 4); Some (7 # 4)], [3 # 4]. cbn. intros H. discriminate H. Qed.
+
 Theorem hklf_full n s m1 m2 m3 m4 m5 m6 m7 m8 m9 sm m :
   hklf [n; s; m1; m2; m3; m4; m5; m6; m7; m8; m9; sm; m] =
   {| hk_n := n; hk_s := s; hk_matrix := [m1; m2; m3; m4; m5; m6; m7; m8; m9]; hk_sm := sm; hk_m := m |}.
